@@ -80,8 +80,50 @@ def directed_deferred_subplan():
                               ["raw", {"a": "read", "path": "out/late.txt"}]]}}
 
 
-CYCLIC_MECH = ("two steps that each define the producer of the input the other one amends: with one "
-               "job slot both stay pending, with several the build succeeds")
+CYCLIC_MECH = ("pending steps wait for each other in a cycle that passes through a definition (a step "
+               "amends an input whose producer is defined by a step that waits, directly or not, for the "
+               "first one): with one job slot they all stay pending, with several the build succeeds")
+
+
+def waits_in_a_cycle_through_a_definition(text):
+    """Classifier of the listed finding, on the graph of the outcome that ended PENDING.
+
+    Waits-for relation among attached PENDING steps: A -> B when A has an input that is not built
+    and B is its (pending) producer, or when B is the (pending) step that defined A, which keeps A
+    from being dispatched.  True when there is a cycle with at least one edge of the second kind."""
+    g = H.parse_graph(text)
+
+    def state(head):
+        for k, v in g[head]["props"]:
+            if k == "state":
+                return v.strip()
+        return None
+
+    pending = {h for h in g if h.startswith("step:") and state(h) == "PENDING"}
+    edges = {h: set() for h in pending}
+    for h in pending:
+        for role, key, _dyn in g[h]["rels"]:
+            if role == "creator" and key in pending:
+                edges[h].add((key, True))
+            if role == "source" and key in g and key.startswith("file:") and state(key) in ("PLANNED", "OUTDATED"):
+                for r2, k2, _d in g[key]["rels"]:
+                    if r2 == "creator" and k2 in pending:
+                        edges[h].add((k2, False))
+    # a cycle through at least one definition edge: from the target of such an edge back to its source
+    for a in pending:
+        for b, is_def in edges[a]:
+            if not is_def:
+                continue
+            seen, stack = set(), [b]
+            while stack:
+                cur = stack.pop()
+                if cur == a:
+                    return True
+                if cur in seen:
+                    continue
+                seen.add(cur)
+                stack.extend(n for n, _ in edges.get(cur, ()))
+    return False
 
 
 def plan_cases(tier, seed):
@@ -163,7 +205,10 @@ def run_plans(case):
         what = f"example plan {name}: stepup build -j1 (exit {rc1}) versus -j4 (exit {rc4})"
         wit = {"example": name, "case": case["id"]}
         if rc1 != rc4:
-            mech = CYCLIC_MECH if name == "cyclic_dynamic" else "success or failure of a build depends on the schedule"
+            mech = "success or failure of a build depends on the schedule"
+            pend = t1 if rc1 == 16 and rc4 == 0 else (t4 if rc4 == 16 and rc1 == 0 else None)
+            if pend is not None and waits_in_a_cycle_through_a_definition(pend):
+                mech = CYCLIC_MECH
             violations.append({"mechanism": mech, "message": what, "witness": wit})
             continue
         if rc1 == 0:
@@ -326,7 +371,13 @@ def run_case(case):
                 classes.add(repr((min(len(spec["steps"]), 9), r["cfg"]["njob"], r["cfg"]["resources"], r["mode"],
                                   hash(r["order"]) % 1000)))
                 if r["class"] != base["class"]:
-                    vio("success or failure of a build depends on the schedule",
+                    mech = "success or failure of a build depends on the schedule"
+                    if {r["class"], base["class"]} == {"pending", "success"}:
+                        pend = r if r["class"] == "pending" else base
+                        if pend["rc"].value == 16 and waits_in_a_cycle_through_a_definition(pend["text"]):
+                            mech = CYCLIC_MECH
+                            counters["cyclic_definitions_seen"] = counters.get("cyclic_definitions_seen", 0) + 1
+                    vio(mech,
                         f"project {rep}: {base['cfg']} ({base['mode']}) -> {base['rc']}, "
                         f"{r['cfg']} ({r['mode']}) -> {r['rc']}")
                     continue
